@@ -92,3 +92,9 @@ META["C10"] = {
     "note": "In-memory pipes and a context-honouring scripted client make every delay the harness's own; the runner's fixed 20 s silent-client timeout is not exercised; schedule-dependent failures print the full history.",
     "technique": "property-based testing (rapid) with fault injection over the peer's output stream and history invariants, concurrency perturbation under -race",
 }
+
+META["C11"] = {
+    "text": "Fault-sequence generation over a server batch: every start fault, death after k of n sends, client pipe failure at send k and missing results, under three callback delivery disciplines and mixed per-case verdicts, driven through runTestCasesForServer with fake processes and a contract-respecting fake client; the oracle is the exactly-one-outcome / setup-error / own-verdict / stop / side-band model. The fault positions are drawn over all k for batches up to 8. Thorough tier adds the real 10 s never-answers timeout and the race detector.",
+    "note": "Fake process controllers invoke whenDone hooks synchronously so that the fault point is deterministic; the client contract (a callback for every accepted request) is assumed from C10.",
+    "technique": "property-based fault injection (rapid) against a reference outcome model",
+}
